@@ -46,12 +46,17 @@ class Reg:
         self.rets.append(r)
         return r
 
+    def tick(self, cookie):
+        return self(cookie)
 
-def h_timers(ex, ops, horizon=None):
+
+def h_timers(ex, ops, horizon=None, bound=False):
     """ops: list of [at, op, who, arg]:  at = offset (grid key) after the previous op;
          op 'add' (arg = period key, who = callable name, suffix '+' periodic, '-' one-shot, '?' symbolic)
             'rm'  (remove_timer(who))
-            'add@' / 'rm@' : the operation is issued from inside the next call of callable arg2"""
+            'add@' / 'rm@' : the operation is issued from inside the next call of callable arg2
+    bound: the callable handed to add_timer / remove_timer is a bound method looked up anew for every call
+           (obj.tick == obj.tick but obj.tick is not obj.tick), as ControllerApplication and Dm1 do internally"""
     w = W.World(ex, mode='timed', eps_range=EPS)
     n = w.add_node('E')
     ecu = n.ecu
@@ -71,10 +76,10 @@ def h_timers(ex, ops, horizon=None):
         if r.removed_at is not None:
             r.new_epoch()             # removed and registered again: the calls of the new registration are judged on their own
         r.regs.append((w.now, delta))
-        ecu.add_timer(delta, r)
+        ecu.add_timer(delta, r.tick if bound else r)
 
     def do_rm(r):
-        ecu.remove_timer(r)
+        ecu.remove_timer(r.tick if bound else r)
         r.removed_at = w.now
         r.calls_at_removal = len(r.calls)
 
@@ -201,7 +206,7 @@ def h_overrun(ex, period='300ms', slow_at='100ms', slow_for='7/10', horizon='5/2
     ex.witness()
 
 
-def h_subs(ex, pattern):
+def h_subs(ex, pattern, bound=False):
     """subscribe / unsubscribe with duplicates: after unsubscribe(cb) returns cb is never called again.
     pattern: list of callable names registered in order, e.g. ['a','a','b','a']; then 'a' is unsubscribed."""
     w = W.World(ex, mode='interleave')
@@ -209,12 +214,29 @@ def h_subs(ex, pattern):
     ecu = n.ecu
     counts = {}
     cbs = {}
+    class Sub:
+        def __init__(self, name):
+            self.name = name
+
+        def on_message(self, prio, pgn, sa, ts, data):
+            w.callback_fired()
+            counts[self.name] = counts.get(self.name, 0) + 1
+
+    class Look(dict):
+        # bound: every lookup yields a new, equal bound method object
+        def __getitem__(self, k):
+            v = dict.__getitem__(self, k)
+            return v.on_message if bound else v
+    cbs = Look()
     for name in pattern:
         if name not in cbs:
-            def cb(prio, pgn, sa, ts, data, name=name):
-                w.callback_fired()
-                counts[name] = counts.get(name, 0) + 1
-            cbs[name] = cb
+            if bound:
+                cbs[name] = Sub(name)
+            else:
+                def cb(prio, pgn, sa, ts, data, name=name):
+                    w.callback_fired()
+                    counts[name] = counts.get(name, 0) + 1
+                cbs[name] = cb
         ecu.subscribe(cbs[name])
     pf = ex.fresh_int('pf', 240, 255)
     ge = ex.fresh_int('ge', 0, 255)
@@ -297,6 +319,8 @@ def jobs(tier):
             if any(o[1] == 'add@' and o[3] == '10ms' for o in ops):
                 params['horizon'] = '11/50'  # a 10 ms timer: every call adds a symbolic latency to all later queries
         out.append(Job('C12', 'c12:h_timers', params, W=40, wall=120 if tier == 'quick' else 900, max_paths=20000, validate=1))
+        if any(o[1] in ('rm', 'rm@') for o in ops) and (tier != 'quick' or len(ops) <= 5):
+            out.append(Job('C12', 'c12:h_timers', dict(params, bound=True), W=40, wall=120 if tier == 'quick' else 900, max_paths=20000, validate=1))
     out.append(Job('C12', 'c12:h_overrun', {}, W=40, wall=300, validate=1))
     out.append(Job('C12', 'c12:h_overrun', {'period': '100ms', 'slow_at': '300ms', 'slow_for': '11/20', 'horizon': '3/2'}, W=40, wall=300, validate=1))
     pats = [['a'], ['a', 'a'], ['a', 'b', 'a'], ['b', 'a', 'a', 'b'], ['a', 'a', 'a'], ['a', 'a', 'a', 'a', 'b']]
@@ -308,6 +332,8 @@ def jobs(tier):
             continue
         seen.add(tuple(p))
         out.append(Job('C12', 'c12:h_subs', {'pattern': p}, W=40, wall=60, validate=1))
+        if len(p) <= 4:
+            out.append(Job('C12', 'c12:h_subs', {'pattern': p, 'bound': True}, W=40, wall=60, validate=1))
     return out
 
 
@@ -315,7 +341,7 @@ def meta(tier):
     return {
         'bounds': ['histories of 1..5 add_timer/remove_timer operations from the list in jv/props/c12.py (_histories), plus ' + ('one 12-operation history' if tier == 'quick' else 'four histories of 8..12 operations') + ' (duplicates, removal, re-registration after removal, operations from inside callbacks); periods from {1,10,100,300 ms,1 s}',
                    'scheduling latency of every wake-up: fresh symbolic real in [10 us, 0.4 ms]; gaps between operations: symbolic real in [g, g+0.5 ms] for grid value g',
-                   'callback return value: True / False / fresh symbolic bool per call',
+                   'callback return value: True / False / fresh symbolic bool per call; callables given as the same object, and as bound methods looked up anew for every add / remove / subscribe / unsubscribe call',
                    'subscribe/unsubscribe: registration patterns over two callables with 1..5 entries, PDU2 frame with symbolic PF/GE',
                    'horizon 2 s after the last operation'],
         'outside': ['histories of more than 5 operations other than the listed long ones', 'periods shorter than the scheduling latency', 'callbacks that take time (except the overrun shape: one callback busy for 0.55 / 0.7 s next to a 100 / 300 ms periodic timer)'],
